@@ -86,7 +86,7 @@ InitRun(c, viol, stats, run) ==
                        THEN pc[CHOOSE p \in 0..N-1 : Has(pc[p], "corrupt_from")].corrupt_from ELSE -1,
        transient |-> Get(c, "transient", FALSE),
        noInterrupt |-> Get(c, "no_interrupt", FALSE),
-       forged |-> Get(c, "forged", FALSE),
+       forged |-> Get(c, "forged", FALSE) \/ Get(c, "waitapi", FALSE),   \* (a waiting call spans several clock readings)
        ts |-> Get(c, "timesync", [on |-> FALSE]),        \* C15 scenario: [on, warmup, lat, tick]
        cd |-> Get(c, "check_distance", 2),               \* SyncTestSession: check distance
        glitchFrame |-> Get(c, "glitch_frame", -1),
@@ -110,7 +110,7 @@ Stats0 == [ runs |-> 0, ticks |-> 0, advances |-> 0, resims |-> 0, loads |-> 0, 
             stalls |-> 0, predicted |-> 0, corrected |-> 0, specAdv |-> 0, events |-> 0,
             verified |-> 0, dropsTruth |-> 0, fills |-> 0, discInputs |-> 0, panics |-> 0,
             notSync |-> 0, delivered |-> 0, dropped |-> 0, dupd |-> 0, runsWithPlannedFault |-> 0, forgedPackets |-> 0,
-            progressChecked |-> 0 ]
+            progressChecked |-> 0, waitLoops |-> 0, waitAdvanced |-> 0, waitArrivals |-> 0 ]
 
 G0 == [ N |-> 0, viol |-> <<>>, stats |-> Stats0, run |-> 0 ]
 
@@ -415,7 +415,13 @@ TickP2P(gg, r) ==
                               !.predicted = @ + acc.nPred, !.corrected = @ + acc.nCorr,
                               !.discInputs = @ + acc.nDisc,
                               !.verified = @ + (ver1 - pe1.ver),
-                              !.notSync = @ + (IF r.r = "E:NotSynchronized" THEN 1 ELSE 0)]
+                              !.notSync = @ + (IF r.r = "E:NotSynchronized" THEN 1 ELSE 0),
+                              \* advance_frame_with_wait_timeout: calls that entered the wait loop / that
+                              \* advanced after waiting / during which packets arrived
+                              !.waitLoops = @ + (IF Has(r, "wait") /\ Has(r, "t1") /\ r.t1 > r.t THEN 1 ELSE 0),
+                              !.waitAdvanced = @ + (IF Has(r, "wait") /\ Has(r, "t1") /\ r.t1 > r.t /\ acc.nNew > 0
+                                                    THEN 1 ELSE 0),
+                              !.waitArrivals = @ + (IF Has(r, "arr") THEN Len(r.arr) ELSE 0)]
   IN AddViol([g3 EXCEPT !.stats = st1],
              acc.vs \o endV \o finV \o confV \o syncV \o expV \o tsV \o BufViol(gg, p, r))
 
